@@ -374,6 +374,28 @@ def concrete_roundtrips(repo, seed, n):
             for cid in (10, 20, 30):
                 if cid not in cr2 or not np.allclose(np.asarray(cr2[cid], float), np.asarray(cref[cid], float), rtol=1e-6, atol=1e-6):
                     return ev, dict(pair="wtcoordcards/rdcord2cards", what="coordinate system %d written as CORD2 card and read back resolves to a different origin/orientation" % cid)
+            # CORD2x cards DEFINED RELATIVE TO ONE ANOTHER (reference id != 0): every field of the cards is what the writer was given
+            types_ = [int(x) for x in rng.permutation([1, 2, 3])]
+            chain, prev = {}, 0
+            for cid_, ty_ in zip((41, 7, 105), types_):
+                A_ = rng.randn(3)
+                zax = rng.randn(3); zax /= np.linalg.norm(zax)
+                xz = rng.randn(3); xz -= zax * (xz @ zax); xz /= np.linalg.norm(xz)
+                chain[cid_] = ["CORD2" + "RCS"[ty_ - 1], np.vstack(([cid_, ty_, prev], A_, A_ + 1.5 * zax, A_ + 0.7 * xz + 0.3 * zax))]
+                prev = cid_ if rng.rand() < 0.8 else 0
+            f = io.StringIO()
+            nastran.wtcoordcards(f, chain); ev += 1
+            lines_ = [ln for ln in f.getvalue().split("\n") if ln and not ln.startswith("$")]
+            fld = lambda ln, k_: ln[8 + 16 * k_: 24 + 16 * k_]
+            for q_, (cid_, (nm_, arr_)) in enumerate(chain.items()):
+                l1, l2, l3 = lines_[3 * q_: 3 * q_ + 3]
+                try:
+                    got_ = [l1[:8].strip().rstrip("*"), int(fld(l1, 0)), int(fld(l1, 1))] + [float(fld(l1, 2)), float(fld(l1, 3))] + [float(fld(l2, k_)) for k_ in range(4)] + [float(fld(l3, k_)) for k_ in range(3)]
+                except ValueError as ex:
+                    return ev, dict(pair="wtcoordcards", what="card of system %d cannot be parsed field by field: %r" % (cid_, ex), text=[l1, l2, l3])
+                want_ = [nm_, cid_, int(arr_[0, 2])] + [float(x) for x in arr_[1:].reshape(-1)]
+                if got_[:3] != want_[:3] or not np.allclose(got_[3:], want_[3:], rtol=1e-7, atol=1e-12):
+                    return ev, dict(pair="wtcoordcards", what="card of system %d: fields (name, CID, RID, A, B, C) differ from what the writer was given" % cid_, got=got_, want=want_)
         # GRID option combinations: cp / cd scalar or vector, ps and seid blank or given (all four combinations), small and large field forms
         for cpv in (0, [int(x) for x in rng.randint(0, 50, ng)]):
             for cdv in (0, [int(x) for x in rng.randint(0, 50, ng)]):
